@@ -19,6 +19,13 @@ error of the difference is sqrt(e1**2 + e2**2).
 SCALE-FREE - the special cases of the statistic are selected by exact
 comparisons with zero, no absolute tolerance (invariance under rescaling);
 VERD-AGG also rejects NaN-unsafe extremum aggregations (builtin min / max).
+VERD-TABLE also covers comparisons of the statistic with the threshold written
+outside the accept function in a verdict method (counting failing bins): the
+table must be the accept table or its exact complement.  VERD-AGG / VERD-DEP
+understand the early-exit spelling (for ..: if <fails>: return False; return
+True).  LAW-GUARD - the normal law is reached only on paths where `ndf is
+None` holds, and Student-law calls receive ndf itself.  QUAD is NaN-strict:
+hypot(inf, NaN) = inf masks an undefined error.
 Not decided: numerical values of t, quantile, p-value; monotonicity and scale
 invariance as numeric facts.
 '''
@@ -29,7 +36,7 @@ ASSUMPTIONS = ['numpy comparison semantics: every ordered comparison with '
 
 def check(ctx):
     ctx.run(stats.check_student)
-    ctx.run(dataset.check_quad, kinds=('sub',))
+    ctx.run(dataset.check_quad, kinds=('sub',), nan_strict=True)
 
 
 def variants(program):
